@@ -363,6 +363,58 @@ func testGenAuth(t *testing.T) {
 type streamScript struct {
 	K   int    `json:"k"`   // messages sent before the stream ends
 	End string `json:"end"` // "eof" | "err" | "hang"
+	// Fault != "": this element is not a stream the server plays but a client-side failure of the
+	// corresponding open attempt, injected below the retry interceptor: "open" = newStream() fails,
+	// "send" = the stream opens but re-sending the request on it (SendMsg) fails
+	Fault string `json:"fault,omitempty"`
+}
+
+// faultInjector is the innermost stream interceptor of every case: it counts the streams the client
+// opens (or tries to) and fails the i-th attempt as the script says.
+type faultInjector struct {
+	mu     sync.Mutex
+	opens  int
+	late   int // attempts made under an already cancelled context (the one operation of the retry loop after a cancellation): they fail inside gRPC and are not script positions
+	script []streamScript
+}
+
+type sendFailStream struct {
+	grpc.ClientStream
+	cancel context.CancelFunc
+}
+
+func (s *sendFailStream) SendMsg(any) error {
+	s.cancel() // release the half-open stream on the server
+	return status.Error(codes.Unavailable, "injected send failure")
+}
+
+func (f *faultInjector) intercept(ctx context.Context, desc *grpc.StreamDesc, cc *grpc.ClientConn, method string, streamer grpc.Streamer, opts ...grpc.CallOption) (grpc.ClientStream, error) {
+	f.mu.Lock()
+	if ctx.Err() != nil {
+		f.late++
+		f.mu.Unlock()
+		return streamer(ctx, desc, cc, method, opts...)
+	}
+	i := f.opens
+	f.opens++
+	f.mu.Unlock()
+	fault := ""
+	if i < len(f.script) {
+		fault = f.script[i].Fault
+	}
+	switch fault {
+	case "open":
+		return nil, status.Error(codes.Unavailable, "injected open failure")
+	case "send":
+		cctx, cancel := context.WithCancel(ctx)
+		cs, err := streamer(cctx, desc, cc, method, opts...)
+		if err != nil {
+			cancel()
+			return nil, err
+		}
+		return &sendFailStream{ClientStream: cs, cancel: cancel}, nil
+	}
+	return streamer(ctx, desc, cc, method, opts...)
 }
 
 type retryCase struct {
@@ -495,11 +547,19 @@ func runRetry(k *retryCase) {
 	impl := map[string]any{}
 	k.Impl = impl
 	kind, msg := hx.Guard(60*time.Second, func() {
-		srv := &retryServer{script: k.Script, unary: k.Unary, hang: make(chan struct{}, 1)}
+		served := []streamScript{} // the server plays the non-fault elements, in order
+		for _, e := range k.Script {
+			if e.Fault == "" {
+				served = append(served, e)
+			}
+		}
+		srv := &retryServer{script: served, unary: k.Unary, hang: make(chan struct{}, 1)}
+		inj := &faultInjector{script: k.Script}
 		streamChain := []grpc.StreamClientInterceptor{interceptor.NewStreamRetry(interceptor.RetryOptions{Max: k.Max})}
 		if k.Wrap {
 			streamChain = append(streamChain, wrapCancelInterceptor)
 		}
+		streamChain = append(streamChain, inj.intercept)
 		ep, err := newEndpoint(srv, nil, []grpc.DialOption{
 			grpc.WithUnaryInterceptor(interceptor.NewUnaryRetry(interceptor.RetryOptions{Max: k.Max})),
 			grpc.WithChainStreamInterceptor(streamChain...),
@@ -626,6 +686,10 @@ func runRetry(k *retryCase) {
 		srv.mu.Unlock()
 		impl["delivered"] = delivered
 		impl["err"] = errClass(last)
+		inj.mu.Lock()
+		impl["opens"] = inj.opens
+		impl["opens_after_cancel"] = inj.late
+		inj.mu.Unlock()
 	})
 	if kind != "" {
 		impl["crash"] = kind + ":" + msg
@@ -707,6 +771,11 @@ func testGenRetry(t *testing.T) {
 		add(&retryCase{Mode: "stream", Method: "WorkloadStatusStream", Max: 2, Script: []streamScript{S(0, "hang")}, CancelAfter: -1, CancelBlock: true})
 		add(&retryCase{Mode: "stream", Method: "WorkloadStatusStream", Max: 2, Script: []streamScript{S(1, "eof"), S(0, "err"), S(0, "hang")}, CancelAfter: -1, CancelBlock: true})
 		add(&retryCase{Mode: "stream", Method: "NodeStatusStream", Max: 2, Script: []streamScript{S(2, "hang")}, CancelAfter: -1, CancelBlock: true})
+		F := func(kind string) streamScript { return streamScript{End: "err", Fault: kind} }
+		add(&retryCase{Mode: "stream", Method: "WorkloadStatusStream", Max: 2, Script: []streamScript{S(1, "err"), F("send"), S(1, "eof")}, CancelAfter: -1})
+		add(&retryCase{Mode: "stream", Method: "WatchServiceStatus", Max: 1, Script: []streamScript{S(2, "eof"), F("open"), S(1, "err"), F("send"), F("open"), S(3, "eof")}, CancelAfter: -1})
+		add(&retryCase{Mode: "stream", Method: "WorkloadStatusStream", Max: 3, Script: []streamScript{S(1, "err"), F("open"), S(0, "eof"), F("send"), S(2, "err")}, CancelAfter: -1})
+		add(&retryCase{Mode: "stream", Method: "GetPodResource", Max: 2, Script: []streamScript{S(1, "err"), F("send"), S(1, "eof")}, CancelAfter: -1})
 		add(&retryCase{Mode: "stream", Method: "WatchServiceStatus", Max: 3, Script: []streamScript{S(1, "hang"), S(1, "eof")}, CancelAfter: 1, Wrap: true})
 		add(&retryCase{Mode: "stream", Method: "WorkloadStatusStream", Max: 0, Script: []streamScript{S(2, "err"), S(1, "hang"), S(2, "hang")}, CancelAfter: -1, CancelBlock: true, Wrap: true})
 		add(&retryCase{Mode: "stream", Method: "GetPodResource", Max: 2, Script: []streamScript{S(2, "hang"), S(1, "eof")}, CancelAfter: 1, Wrap: true})
@@ -721,6 +790,13 @@ func testGenRetry(t *testing.T) {
 			case c < 6:
 				k.Mode, k.Method = "stream", hx.Pick(r, "WorkloadStatusStream", "WatchServiceStatus")
 				k.Script = genScript(r, slow)
+				if r.Chance(30) { // re-open attempts that fail on the client side (open error, re-send error)
+					for n := r.Range(1, 2); n > 0; n-- {
+						at := r.Range(1, len(k.Script))
+						f := streamScript{End: "err", Fault: hx.Pick(r, "send", "send", "open")}
+						k.Script = append(k.Script[:at], append([]streamScript{f}, k.Script[at:]...)...)
+					}
+				}
 				if r.Chance(25) { // the watch ends the usual way: the stream goes silent, the caller cancels while blocked
 					k.CancelBlock = true
 					k.Script[len(k.Script)-1] = streamScript{K: hx.Pick(r, 0, 1, 3), End: "hang"}
